@@ -11,6 +11,7 @@ import faulthandler
 import hashlib
 import json
 import os
+import signal
 import random
 import sys
 import time
@@ -175,13 +176,21 @@ def _task_wrapper(func, task, timeout_s):
     # runs inside a forked worker
     faulthandler.enable()
     if timeout_s:
-        faulthandler.dump_traceback_later(timeout_s, exit=True)
+        # soft limit: an exception in this task only; hard limit (kills the worker, and with it the
+        # pool) only if the soft one cannot be delivered because the task is stuck outside Python code
+        def _soft(signum, frame):  # noqa: ARG001
+            raise HarnessError(f"task exceeded its {timeout_s}s budget")
+
+        signal.signal(signal.SIGALRM, _soft)
+        signal.alarm(int(timeout_s))
+        faulthandler.dump_traceback_later(timeout_s + 120, exit=True)
     try:
         return ("ok", func(task))
     except BaseException as e:  # noqa: BLE001
         return ("harness_error", f"{type(e).__name__}: {e}\n{traceback.format_exc()}")
     finally:
         if timeout_s:
+            signal.alarm(0)
             faulthandler.cancel_dump_traceback_later()
 
 
